@@ -540,11 +540,11 @@ parse_file(const char *file)
 
 #if defined HAVE_GETLINE
 	for (ssize_t nrd; (nrd = getline(&line, &llen, fp)) > 0;) {
-		parse_line(line, nrd - 1);
+		parse_line(line, nrd - (line[nrd - 1] == '\n'));
 	}
 #elif defined HAVE_FGETLN
 	while ((line = fgetln(fp, &llen)) != NULL && llen > 0U) {
-		parse_line(line, llen - 1);
+		parse_line(line, llen - (line[llen - 1U] == '\n'));
 	}
 #else
 # error neither getline() nor fgetln() available, cannot read file line by line
@@ -637,11 +637,11 @@ check_file(const char *file)
 
 #if defined HAVE_GETLINE
 	for (ssize_t nrd; (nrd = getline(&line, &llen, fp)) > 0;) {
-		rc |= check_line(line, nrd - 1);
+		rc |= check_line(line, nrd - (line[nrd - 1] == '\n'));
 	}
 #elif defined HAVE_FGETLN
 	while ((line = fgetln(fp, &llen)) != NULL && llen > 0U) {
-		rc |= check_line(line, llen - 1);
+		rc |= check_line(line, llen - (line[llen - 1U] == '\n'));
 	}
 #else
 # error neither getline() nor fgetln() available, cannot read file line by line
